@@ -165,7 +165,15 @@ def _thread_selected_sites(mod):
             if test is None: continue
             src = ast.unparse(test)
             if any(t_ in src for t_ in _THREAD_QUERIES) or any(isinstance(x, ast.Name) and x.id in tainted for x in ast.walk(test)):
-                out.append((fn, n))
+                # only a branch that selects the computation (returns, or calls other functions): picking a constant such as a chunk size by the
+                # core count leaves the arithmetic alone (chunk-size independence is decided separately)
+                arms = ([n.body, n.orelse] if isinstance(n, ast.IfExp) else [ast.Module(body=n.body, type_ignores=[]), ast.Module(body=n.orelse, type_ignores=[])])
+                selects = False
+                for arm in arms:
+                    for x in ast.walk(arm):
+                        if isinstance(x, ast.Return): selects = True
+                        if isinstance(x, ast.Call) and not ast.unparse(x.func).split(".")[0] in ("np", "numpy", "math", "min", "max", "int", "float", "len", "logging", "logger"): selects = True
+                if selects: out.append((fn, n))
     return out
 
 
